@@ -357,6 +357,9 @@ class Fn:
             if k == "vec":
                 return t
             self.fail(e, "name %s is not a known vector (kind %s)" % (e.id, k))
+        if isinstance(e, ast.Call) and isinstance(e.func, ast.Attribute) and e.func.attr == "copy" \
+                and not e.args and not e.keywords:
+            return self.tr_vec(e.func.value, env)      # a copy has the same value
         if isinstance(e, ast.Call):
             f = T.dotted(e.func)
             if f == "Vec" and len(e.args) == 3:
@@ -1146,11 +1149,17 @@ def builder(fn):
         c = fn.run_mode("coords")
         if fn.mesh_from_arrays:
             raise TranslationError("coordinates are the caller's")
-        if overrides:
-            raise TranslationError("a vertex is overwritten after the loops")
         if c == "[]":
             raise TranslationError("no coordinates")
-        out.append("Definition %s_coords %s : list (vec T) :=\n  %s." % (fn.g, fn.coord_binders(), c))
+        extra = ""
+        if overrides:
+            # vertices overwritten after the loops (ring: the apex found by bisection) become parameters
+            if len(set(overrides)) != len(overrides):
+                raise TranslationError("a vertex is overwritten twice")
+            for k in overrides:
+                c = "(vset %d v__ov%d %s)" % (k, k, c)
+                extra += " (v__ov%d : vec T)" % k
+        out.append("Definition %s_coords %s%s : list (vec T) :=\n  %s." % (fn.g, fn.coord_binders(), extra, c))
         fn.defs.add("coords")
         fn.coords_skipped = None
     except TranslationError as ex:
@@ -1242,8 +1251,10 @@ def translate():
         pat = lambda kinds: "[" + "; ".join(q(n) for n, k, _ in fn.params if k in kinds) + "]"
         ipat = "[" + "; ".join(q(n) for n in ints) + "]"
         args = [q(n) for n in fn.extra_int_params] + [q(n) for n, k, _ in fn.params if k in ("int", "bool", "float", "vec")]
-        lines.append("  | %d, %s, %s, %s, %s => Some (%s_coords O %s)" % (code, ipat, pat(("bool",)), pat(("float",)), pat(("vec",)),
-                                                                  fn.g, " ".join(args)))
+        ovs = ["v__ov%d" % k for k in getattr(fn, "overrides", [])]
+        vpat = "[" + "; ".join([q(n) for n, k, _ in fn.params if k == "vec"] + ovs) + "]"
+        lines.append("  | %d, %s, %s, %s, %s => Some (%s_coords O %s)" % (code, ipat, pat(("bool",)), pat(("float",)), vpat,
+                                                                  fn.g, " ".join(args + ovs)))
     lines.append("  | _, _, _, _, _ => None\n  end.")
     disp.append("\n".join(lines))
     for code, nm in enumerate(names):
